@@ -101,6 +101,11 @@ def rand_cov2(rng):
     """symmetric PSD 2x2, condition number < 1e8, including rank 1, rank 0, isotropic, axis aligned"""
     r = rng.random()
     s0 = 10 ** rng.uniform(-6, 4)
+    if rng.random() < 0.15:
+        # exactly diagonal (uncorrelated x and y), either axis the larger one, also rank deficient: cos(pi/2) is not 0
+        # in floating point, so the rotated form below never produces var_y > var_x with exactly zero covariance
+        s1 = rng.choice([0.0, s0, s0 * 10 ** rng.uniform(-7.9, 0)])
+        return [s1, 0.0, 0.0, s0] if rng.random() < 0.6 else [s0, 0.0, 0.0, s1]
     if r < 0.15:
         s1 = 0.0
     elif r < 0.2:
